@@ -89,6 +89,12 @@ where
     ) -> Result<(), BulkMutationError<S::Error>> {
         let mut valid_entries = Vec::with_capacity(msg.docs.len());
 
+        // A single request can carry several versions of the same document (i.e. a
+        // replication batch). Storage keeps whatever is written last, so the documents
+        // must be written in the same order the set is updated in.
+        let mut msg = msg;
+        msg.docs.sort_by_key(|doc| doc.last_updated());
+
         // Only select docs to be inserted if they're able to be applied.
         let docs = msg
             .docs
@@ -156,6 +162,10 @@ where
         msg: MultiDel<S>,
     ) -> Result<(), BulkMutationError<S::Error>> {
         let mut valid_entries = Vec::with_capacity(msg.docs.len());
+
+        // See `on_multi_set`, tombstones must be written in timestamp order as well.
+        let mut msg = msg;
+        msg.docs.sort_by_key(|doc| doc.last_updated);
 
         // Only select docs to be inserted if they're able to be applied.
         let docs = msg
